@@ -177,6 +177,29 @@ fn directed(ctx: &mut Ctx) {
             ctx.count("many-types-policed");
         }
     }
+    // very many required types that are ABSENT from a small request (whatever the 400 response says
+    // about them has to fit): distinct unknown types, every built-in type twice, one type repeated
+    {
+        let small = encode(0, 1, &[6; 12], &[Tlv::new(0x8022, b"agent".to_vec()), Tlv::new(0x0024, vec![0, 0, 1, 0])]);
+        let builtin: Vec<u16> = crate::refimpl::attrs::ordinary_kinds().iter().map(|k| k.code()).chain([0x0008u16, 0x001c, 0x8028]).collect();
+        let mut lists: Vec<Vec<u16>> = vec![];
+        for cnt in [16usize, 24, 25, 32, 45, 64, 65, 100, 200, 1000, 5000] {
+            lists.push((0..cnt).map(|i| 0x4100 + i as u16).collect());
+            lists.push((0..cnt).map(|i| 0xc100 + i as u16 * 3).collect());
+        }
+        lists.push(builtin.iter().chain(builtin.iter()).copied().collect());
+        lists.push(builtin.iter().chain(builtin.iter()).chain(builtin.iter()).chain(builtin.iter()).copied().collect());
+        for t in [0x0008u16, 0x001c, 0x8028, 0x0006, 0x0000, 0xffff] {
+            lists.push(vec![t; 200]);
+            lists.push(vec![t; 3000]);
+        }
+        for req in lists {
+            let o = Opts { creds: vec![creds.clone()], police: vec![(vec![0x8022, 0x0024], req.clone()), (vec![], req)], deep: false, typed: false };
+            check_buffer(ctx, &small, &o);
+            ctx.eval();
+            ctx.count("many-absent-required-policed");
+        }
+    }
     // integrity attribute ending beyond 65 535 (16-bit arithmetic in validate_integrity)
     let mut rng = ctx.rng("directed", 0);
     for (total, tail) in [
